@@ -864,14 +864,12 @@ def r01i(model, ctx):
     f = model.func(f"{AST_PY}::Mux")
     ok = any(isinstance(x, ast.Return) and unparse(x.value) == "SwitchValue(sel, ((0, val0), (None, val1)), src_loc_at=1)" for x in f.body)
     ctx.check(ok, R, "Mux", "sel == 0 -> val0, otherwise val1", "Mux(sel, val1, val0) must choose val0 exactly when sel is zero", f"{AST_PY}:{f.lineno}")
-    f = model.func(f"{AST_PY}::Value.__getitem__")
-    t = unparse(f)
-    ok = "if key < 0:\n            key += length\n        return Slice(self, key, key + 1, src_loc_at=1)" in t and \
-        "(start, stop, step) = key.indices(length)" in t.replace("start, stop, step = key.indices(length)", "(start, stop, step) = key.indices(length)") and \
-        "return Cat((self[i] for i in range(start, stop, step)))" in t and "return Slice(self, start, stop, src_loc_at=1)" in t
-    ctx.check(ok, R, "Value.__getitem__", "int -> one-bit slice (negative indices wrap); slice -> Python slice semantics",
-              "indexing must follow Python sequence semantics: int k -> Slice(k, k+1) with negative wrap, slices via key.indices(len)",
-              f"{AST_PY}:{f.lineno}")
+    from ..engine import refsem as _rs
+    f, paths = _rs.method_paths(model, f"{AST_PY}::Value.__getitem__", inline=False)
+    _rs.compare(ctx, R, "Value.__getitem__", f"{AST_PY}:{f.lineno}", "Value.__getitem__", paths, [REF_VALUE_GETITEM],
+                fact="int -> one-bit slice (negative indices wrap); slice -> Python slice semantics",
+                why="indexing must follow Python sequence semantics: int k -> Slice(k, k+1) with negative wrap, slices via "
+                    "key.indices(len): Slice(start, stop) or Cat over range(start, stop, step)")
     # Array indexing: ArrayProxy.as_value builds a SwitchValue over the elements in order
     f = model.func(f"{AST_PY}::ArrayProxy.as_value")
     t = unparse(f)
@@ -885,5 +883,26 @@ def r01i(model, ctx):
     ctx.check(ok, R, "ArrayProxy.as_value", "SwitchValue over (index, element) pairs in order", "array indexing must lower to a "
               "SwitchValue keyed by element index", f"{AST_PY}:{f.lineno}")
 
+
+REF_VALUE_GETITEM = """
+length = len(self)
+if isinstance(key, int):
+    if key not in range(-length, length):
+        raise IndexError()
+    if key < 0:
+        key += length
+    return Slice(self, key, key + 1, src_loc_at=1)
+elif isinstance(key, slice):
+    if isinstance(key.start, Value) or isinstance(key.stop, Value):
+        raise TypeError()
+    start, stop, step = key.indices(length)
+    if step != 1:
+        return Cat(self[i] for i in range(start, stop, step))
+    return Slice(self, start, stop, src_loc_at=1)
+elif isinstance(key, Value):
+    raise TypeError()
+else:
+    raise TypeError()
+"""
 
 RULES = [("R-01i", r01i), ("R-01f", r01f), ("R-01e", r01e), ("R-01a", r01a), ("R-01b", r01b), ("R-01c", r01c), ("R-01d", r01d), ("R-01g", r01g), ("R-01h", r01h)]
